@@ -85,7 +85,9 @@ def d1b(chk, prog):
                     chroms.append(f"chr{c + 1}")
                 configs.append((chroms, list(names)))
     configs += [(["chr1"] * 6, ["-", "A", "Antitarget", "A", ".", "B"]), (["chr1"] * 5 + ["chr2"], ["A", "A", "CGH", "B", "-", "-"]),
-                (["chr1", "chr1", "chr2", "chr2", "chr2", "chr3"], ["-", "-", "A", "-", "A", "Antitarget"])]
+                (["chr1", "chr1", "chr2", "chr2", "chr2", "chr3"], ["-", "-", "A", "-", "A", "Antitarget"]),
+                # chromosomes whose genomic order is not their alphabetical order (chr2 before chr10, chrX last): genes come out in the table's order
+                (["chr2", "chr2", "chr10", "chr10", "chrX"], ["A", "-", "B", "B", "C"]), (["chr9", "chr10", "chr11"], ["A", "B", "-"]), (["2", "2", "10", "X"], ["A", "A", "-", "B"])]
 
     def premise(chroms, names):
         for g in set(names) - set(ignored):
@@ -285,7 +287,7 @@ def d2(chk, prog):
     thr = Fr(1, 5)
     vals = [Fr(-3, 10), Fr(-1, 5), Fr(-1, 10), Fr(0), Fr(1, 10), Fr(1, 5), Fr(3, 10)]
     model = Model()
-    model.prims["cnvlib.reports.group_by_genes"] = lambda it, cn, sk: [Row({"gene": f"g{i}" if i != 6 else "", "log2": v}) for i, v in enumerate(vals)]
+    model.prims["cnvlib.reports.group_by_genes"] = lambda it, cn, sk=False, *a_, **k_: [Row({"gene": f"g{i}" if i != 6 else "", "log2": v}) for i, v in enumerate(vals)]
     it = Interp(prog, model)
     out = tb2.guard(lambda: list(it.run(fg.qn, [None, thr, False])), "thresholds")
     if out is not None:
@@ -301,7 +303,7 @@ def d2(chk, prog):
     W.reset()
     segs = [Row({"chromosome": "chr1", "start": 0, "end": 10, "gene": "-", "log2": v, "weight": Term.sym(f"sw{i}"), "probes": Term.sym(f"sp{i}")}) for i, v in enumerate(vals)]
     model = Model()
-    model.prims["cnvlib.reports.group_by_genes"] = lambda it, cn, sk: [Row({"gene": "G", "log2": Term.sym("genelog2"), "probes": 4})]
+    model.prims["cnvlib.reports.group_by_genes"] = lambda it, cn, sk=False, *a_, **k_: [Row({"gene": "G", "log2": Term.sym("genelog2"), "probes": 4})]
     rows, *_ = grp_rows([1, 1, 1])
     g = make_ga("CopyNumArray", rows, {"sample_id": "S"})
     segarr = make_ga("CopyNumArray", [{"chromosome": "chr1", "start": 0, "end": 10, "gene": "-", "log2": 0, "weight": 1, "probes": 1}], {})
@@ -330,6 +332,42 @@ def d2(chk, prog):
         want = [("GA", Fr(1, 2), 5), ("GB", Fr(1, 2), 5)]
         tb3.cell(len(got) == len(want) and all(a[0] == b[0] and same(a[1], b[1]) and same(a[2], b[2]) for a, b in zip(got, want)), dict(skip_low=skip_low, got=[repr(x) for x in got], want=[repr(x) for x in want]))
     tb3.done("gene rows inside a segment do not carry the segment's log2 / are not filtered on it (or a gene inside a reported segment is left out)")
+    # do_genemetrics end to end with segments and a minimum bin count: the count that matters is the segment's, so a two-bin gene inside a five-bin segment is listed
+    fdg = prog.fn("cnvlib.reports.do_genemetrics")
+    tb3b = Table(chk, "gene-summary", "do_genemetrics(bins, segments, min_probes) end to end on literal bins: genes of 3 / 2 bins inside a 5-bin segment, min_probes 3 / 6 / 1", fdg.loc(), fdg.qn + "::with segments")
+    for mp in (3, 6, 1):
+        W.reset()
+        names = ["GA", "GA", "GA", "GB", "GB", "GC"]
+        brow = [dict(chromosome="chr1", start=10 * i, end=10 * i + 10, gene=nm, log2=Fr(i, 8), depth=Fr(5), weight=Fr(1, 2)) for i, nm in enumerate(names)]
+        bins_ = make_ga("CopyNumArray", brow, {"sample_id": "S"}, index="range", exact=True, labels=list(range(len(names))))
+        seg_ = make_ga("CopyNumArray", [dict(chromosome="chr1", start=0, end=50, gene="-", log2=Fr(1, 2), probes=5, weight=Fr(5, 2)), dict(chromosome="chr1", start=50, end=60, gene="-", log2=Fr(1, 100), probes=1, weight=Fr(1, 2))],
+                       {"sample_id": "S"}, index="range", exact=True, labels=[0, 1])
+        model = Model()
+        model.method_prims["guess_xx"] = lambda it, obj, *a, **k: True
+        model.method_prims["shift_xx"] = lambda it, obj, *a, **k: obj
+        seen_rows = []
+
+        def from_records(it, recs, *a, seen_rows=seen_rows, **k):
+            recs = list(it.iterate(recs))
+            seen_rows.extend(recs)
+            cols_ = list(recs[0]._fields) if recs else []
+            d = DF({c: Vec([r._d.get(c) for r in recs], aligned=True) for c in cols_}, len(recs))
+            d.exact = True
+            for v in d.cols.values():
+                v.exact = True
+            return d
+        model.ext["pd.DataFrame.from_records"] = from_records
+        it = Interp(prog, model)
+        out = tb3b.guard(lambda: ("v", it.run(fdg.qn, [bins_, seg_], dict(threshold=Fr(1, 5), min_probes=mp))), f"min_probes={mp}")
+        if out is None:
+            continue
+        res = out[1]
+        got = list(res.cols["gene"].v) if isinstance(res, DF) and "gene" in res.cols else repr(res)[:80]
+        if isinstance(res, DF) and "__keep__" in res.cols:
+            got = [g_ for g_, k_ in zip(res.cols["gene"].v, res.cols["__keep__"].v) if k_ is True]
+        want = ["GA", "GB"] if mp <= 5 else []
+        tb3b.cell(got == want, dict(min_probes=mp, genes_listed=got, want=want, note="GA has 3 bins, GB 2, both inside a segment of 5 bins; the one-bin segment holding GC is below the threshold"))
+    tb3b.done("with segments given, a gene is dropped (or kept) by its own bin count instead of its segment's")
 
     # squash_genes.squash_rows
     fq = prog.fn("cnvlib.cnary.CopyNumArray.squash_genes")
